@@ -6,8 +6,10 @@
 // deadlock) kills only the child; the parent reads the child's progress file to find the
 // culprit, re-queues the rest, confirms each culprit alone per entry point, shrinks failures by
 // token deletion, replays them through cmd/zygo as a subprocess, and writes
-//   --out   cases file  "ID<TAB>SHAPE<TAB>IMPL-CLASS"  (model tie of the code generator)
-//   --stats JSON        counts, histograms, skip lists, failures with replay data
+//
+//	--out   cases file  "ID<TAB>SHAPE<TAB>IMPL-CLASS"  (model tie of the code generator)
+//	--stats JSON        counts, histograms, skip lists, failures with replay data
+//
 // Worker mode (--worker): see worker.go.
 package main
 
@@ -31,12 +33,13 @@ import (
 )
 
 type config struct {
-	seed    uint64
-	tier    string
-	repo    string
-	zygo    string
-	tmp     string
-	streams map[string]bool
+	seed     uint64
+	tier     string
+	repo     string
+	zygo     string
+	tmp      string
+	streams  map[string]bool
+	noShrink bool
 }
 
 func buildStream(name string, cfg *config) (Stream, map[string]string, error) {
@@ -187,6 +190,13 @@ func runJob(cfg *config, j job) jobResult {
 		cmd := exec.Command(self, args...)
 		cmd.Dir = cfg.tmp
 		cmd.Env = append(os.Environ(), "GOMAXPROCS=2", "GOGC=200")
+		if strings.HasSuffix(cur.stream, "specials") {
+			if cfg.tier == "thorough" {
+				cmd.Env = append(cmd.Env, "C01_MAXSTACK_MB=64")
+			} else {
+				cmd.Env = append(cmd.Env, "C01_MAXSTACK_MB=8")
+			}
+		}
 		var stderr bytes.Buffer
 		cmd.Stderr = &limitedWriter{buf: &stderr, max: 1 << 20}
 		cmd.Stdout = nil
@@ -215,9 +225,9 @@ func runJob(cfg *config, j job) jobResult {
 			}
 		}
 		ok := rc == 0 && !timedOut
-		// read what the child wrote
-		var tie []string
-		var hist, tags map[string]int
+		// read what the child wrote (complete checkpoints only)
+		var tie, tieOpen []string
+		hist, tags := map[string]int{}, map[string]int{}
 		n := 0
 		if b, err := os.ReadFile(rf); err == nil {
 			for _, line := range strings.Split(string(b), "\n") {
@@ -227,21 +237,29 @@ func runJob(cfg *config, j job) jobResult {
 					if json.Unmarshal([]byte(line[2:]), &a) == nil {
 						res.anomalies = append(res.anomalies, a)
 					}
-				case strings.HasPrefix(line, "C\t") && ok:
-					tie = append(tie, line[2:])
-				case strings.HasPrefix(line, "H\t") && ok:
+				case strings.HasPrefix(line, "C\t"):
+					tieOpen = append(tieOpen, line[2:])
+				case strings.HasPrefix(line, "H\t"):
 					var h struct {
 						Hist map[string]int `json:"hist"`
 						Tags map[string]int `json:"tags"`
 						N    int            `json:"n"`
 					}
 					if json.Unmarshal([]byte(line[2:]), &h) == nil {
-						hist, tags, n = h.Hist, h.Tags, h.N
+						for k, v := range h.Hist {
+							hist[k] += v
+						}
+						for k, v := range h.Tags {
+							tags[k] += v
+						}
+						n += h.N
+						tie = append(tie, tieOpen...)
+						tieOpen = nil
 					}
 				}
 			}
 		}
-		if ok {
+		{
 			res.tie = append(res.tie, tie...)
 			for k, v := range hist {
 				res.hist[k] += v
@@ -250,7 +268,8 @@ func runJob(cfg *config, j job) jobResult {
 				res.tags[k] += v
 			}
 			res.n += n
-		} else {
+		}
+		if !ok {
 			idx, entry := -1, 0
 			if b, err := os.ReadFile(prog); err == nil && len(b) >= 16 {
 				idx = int(binary.LittleEndian.Uint64(b[:8]))
@@ -259,6 +278,15 @@ func runJob(cfg *config, j job) jobResult {
 			if idx < cur.from || idx >= cur.to {
 				// died before the first input or lost progress: treat the first index as culprit
 				idx = cur.from
+			}
+			if rc == 5 && cur.only != EEval+100 {
+				// a new interpreter could not be created any more: find the input that damaged the process
+				k := findPoison(cfg, cur.stream, cur.from, idx+1)
+				res.culprits = append(res.culprits, culprit{Stream: cur.stream, Idx: k, Entry: "EvalString, then NewZlisp+StandardSetup in the same process", Class: "POISONED", Rc: rc, Stderr: poisonMsg(res.anomalies)})
+				pending = append(pending, job{cur.stream, k + 1, cur.to, cur.only, cur.timeout})
+				os.Remove(prog)
+				os.Remove(rf)
+				continue
 			}
 			class := ObsKilled
 			if rc == 3 || timedOut {
@@ -271,7 +299,8 @@ func runJob(cfg *config, j job) jobResult {
 			res.culprits = append(res.culprits, culprit{Stream: cur.stream, Idx: idx, Entry: en, Class: class, Rc: rc, Stderr: fatalTop(stderr.String())})
 			// anomalies already reported for indices of this range stay; re-run the part before the
 			// culprit (its statistics were lost) and the part after it
-			pending = append(pending, job{cur.stream, cur.from, idx, cur.only, cur.timeout}, job{cur.stream, idx + 1, cur.to, cur.only, cur.timeout})
+			// statistics up to the last checkpoint were kept; continue after the culprit
+			pending = append(pending, job{cur.stream, idx + 1, cur.to, cur.only, cur.timeout})
 		}
 		os.Remove(prog)
 		os.Remove(rf)
@@ -288,6 +317,52 @@ func runJob(cfg *config, j job) jobResult {
 	}
 	res.anomalies = uniq
 	return res
+}
+
+func poisonMsg(as []anomaly) string {
+	for i := len(as) - 1; i >= 0; i-- {
+		if as[i].Class == "POISONED" {
+			return "NewZlisp+StandardSetup panics afterwards: " + as[i].Msg
+		}
+	}
+	return "NewZlisp+StandardSetup panics afterwards"
+}
+
+// poisonedRange runs [from,to) through EvalString only in one child and reports whether a new
+// interpreter can still be created at the end.
+func poisonedRange(cfg *config, stream string, from, to int) bool {
+	seq := nextSeq()
+	prog := filepath.Join(cfg.tmp, fmt.Sprintf("p%d", seq))
+	rf := filepath.Join(cfg.tmp, fmt.Sprintf("r%d", seq))
+	cmd := exec.Command(self, "--worker", "--poison-check", "--stream", stream, "--from", strconv.Itoa(from), "--to", strconv.Itoa(to),
+		"--progress", prog, "--result", rf, "--seed", strconv.FormatUint(cfg.seed, 10), "--tier", cfg.tier, "--repo", cfg.repo,
+		"--only", "0", "--input-timeout", "10000")
+	cmd.Dir = cfg.tmp
+	cmd.Env = append(os.Environ(), "GOMAXPROCS=2")
+	err := cmd.Run()
+	os.Remove(prog)
+	os.Remove(rf)
+	if ee, ok := err.(*exec.ExitError); ok && ee.ExitCode() == 5 {
+		return true
+	}
+	return false
+}
+
+// findPoison: smallest k in [from,to) such that evaluating [from..k] poisons the process.
+func findPoison(cfg *config, stream string, from, to int) int {
+	lo, hi := from, to-1 // invariant: [from..hi] poisons (or nothing does)
+	if !poisonedRange(cfg, stream, from, to) {
+		return to - 1
+	}
+	for lo < hi {
+		mid := (lo + hi) / 2
+		if poisonedRange(cfg, stream, from, mid+1) {
+			hi = mid
+		} else {
+			lo = mid + 1
+		}
+	}
+	return lo
 }
 
 type limitedWriter struct {
@@ -335,8 +410,8 @@ type failure struct {
 	Input      string            `json:"input"`
 	Minimal    string            `json:"minimal"`
 	Standalone bool              `json:"standalone"`
-	Count      int               `json:"count"` // inputs of this run with the same class and site
-	Entries    map[string]string `json:"entries"` // observable of the minimal input per entry point
+	Count      int               `json:"count"`    // inputs of this run with the same class and site
+	Entries    map[string]string `json:"entries"`  // observable of the minimal input per entry point
 	Zygo       map[string]string `json:"cmd_zygo"` // exit status of cmd/zygo on the minimal input
 	Tag        string            `json:"tag"`
 	EnvStart   int               `json:"env_start"`
@@ -430,7 +505,17 @@ func siteKey(class, site string) string {
 	if i := strings.Index(s, " | "); i > 0 {
 		s = s[:i]
 	}
-	return s
+	if i := strings.Index(s, "WATCHDOG"); i >= 0 {
+		s = "WATCHDOG"
+	}
+	var b strings.Builder
+	for _, r := range s {
+		if r >= '0' && r <= '9' {
+			continue
+		}
+		b.WriteRune(r)
+	}
+	return b.String()
 }
 
 // shrink: token deletion (ddmin over the coarse tokens), every candidate in its own child.
@@ -457,7 +542,7 @@ func shrink(cfg *config, f *failure, timeout time.Duration, maxRounds int) {
 			c := append(append([]string{}, toks[:s]...), toks[e:]...)
 			cands = append(cands, strings.Join(c, ""))
 			cuts = append(cuts, [2]int{s, e})
-			if len(cands) >= 64 {
+			if len(cands) >= 64 || (f.Class != ObsPanic && len(cands) >= 14) {
 				break
 			}
 		}
@@ -490,7 +575,7 @@ func shrink(cfg *config, f *failure, timeout time.Duration, maxRounds int) {
 
 func runZygo(cfg *config, text string, timeout time.Duration) map[string]string {
 	out := map[string]string{}
-	if cfg.zygo == "" {
+	if cfg.zygo == "" || strings.TrimSpace(text) == "" {
 		return out
 	}
 	run := func(name string, args []string, stdin string) {
@@ -531,15 +616,75 @@ func runZygo(cfg *config, text string, timeout time.Duration) map[string]string 
 			out[name] = "TIMEOUT"
 		}
 	}
+	var mu sync.Mutex
+	var wg sync.WaitGroup
+	outer := out
+	out = map[string]string{}
+	par := func(name string, args []string, stdin string) {
+		wg.Add(1)
+		go func() {
+			defer wg.Done()
+			local := map[string]string{}
+			saved := out
+			_ = saved
+			runOne(cfg, local, name, args, stdin, timeout)
+			mu.Lock()
+			for k, v := range local {
+				outer[k] = v
+			}
+			mu.Unlock()
+		}()
+	}
 	if len(text) < 100000 && !strings.ContainsRune(text, 0) {
-		run("-c", []string{"-c", text}, "")
+		par("-c", []string{"-c", text}, "")
 	}
 	script := filepath.Join(cfg.tmp, fmt.Sprintf("script%d.zy", nextSeq()))
 	os.WriteFile(script, []byte(text), 0644)
-	run("script", []string{"-exitonfail", script}, "")
+	par("script", []string{"-exitonfail", script}, "")
+	par("repl-stdin", []string{"-no-liner", "-quiet"}, text+"\n")
+	wg.Wait()
 	os.Remove(script)
-	run("repl-stdin", []string{"-no-liner", "-quiet"}, text+"\n")
-	return out
+	_ = run
+	return outer
+}
+
+func runOne(cfg *config, out map[string]string, name string, args []string, stdin string, timeout time.Duration) {
+	cmd := exec.Command(cfg.zygo, args...)
+	cmd.Dir = cfg.tmp
+	var se bytes.Buffer
+	cmd.Stderr = &limitedWriter{buf: &se, max: 1 << 20}
+	cmd.Stdout = nil
+	if stdin != "" {
+		cmd.Stdin = strings.NewReader(stdin)
+	}
+	if err := cmd.Start(); err != nil {
+		out[name] = "not-started"
+		return
+	}
+	done := make(chan error, 1)
+	go func() { done <- cmd.Wait() }()
+	select {
+	case err := <-done:
+		rc := 0
+		if err != nil {
+			rc = -1
+			if ee, ok := err.(*exec.ExitError); ok {
+				rc = ee.ExitCode()
+			}
+		}
+		top := fatalTop(se.String())
+		cls := "exit"
+		if strings.Contains(top, "panic:") {
+			cls = "PANIC"
+		} else if strings.Contains(top, "fatal error:") || rc == -1 {
+			cls = "FATAL"
+		}
+		out[name] = fmt.Sprintf("%s rc=%d %s", cls, rc, top)
+	case <-time.After(timeout):
+		cmd.Process.Kill()
+		<-done
+		out[name] = "TIMEOUT"
+	}
 }
 
 // ---- parent main -----------------------------------------------------------------------------------
@@ -555,8 +700,8 @@ func parentMain(a lib.Args, cfg *config) {
 	out := lib.NewOut(a.Out)
 	out.Rule = "nontrivial = an input whose evaluation reached the generator (model-tie cases); evaluations counts every (input, entry point) run"
 
-	order := []string{"specials", "forms", "builtins", "mutants", "tokext", "tokcore"}
-	chunk := map[string]int{"specials": 1, "forms": 4000, "builtins": 4000, "mutants": 200, "tokext": 15000, "tokcore": 15000}
+	order := []string{"builtins", "forms", "specials", "mutants", "tokext", "tokcore"}
+	chunk := map[string]int{"specials": 1, "forms": 1500, "builtins": 800, "mutants": 100, "tokext": 8000, "tokcore": 8000}
 	inputTimeout := 10 * time.Second
 	if cfg.tier == "thorough" {
 		inputTimeout = 20 * time.Second
@@ -609,7 +754,10 @@ func parentMain(a lib.Args, cfg *config) {
 		}
 		to := inputTimeout
 		if name == "specials" {
-			to = 60 * time.Second
+			to = 20 * time.Second
+			if cfg.tier == "thorough" {
+				to = 120 * time.Second
+			}
 		}
 		for f := 0; f < st.Count(); f += c {
 			e := f + c
@@ -621,6 +769,7 @@ func parentMain(a lib.Args, cfg *config) {
 	}
 	results := runJobs(cfg, jobs, parallelism())
 	tScan := time.Since(t0)
+	fmt.Fprintf(os.Stderr, "c01: scan done %.1fs\n", tScan.Seconds())
 
 	// aggregate
 	hist := map[string]int{}
@@ -690,8 +839,10 @@ func parentMain(a lib.Args, cfg *config) {
 	var keys []string
 	addFailure := func(f failure) {
 		k := f.Class + "|" + siteKey(f.Class, f.Site)
-		if f.Class != ObsPanic {
+		if f.Stream == "specials" {
 			k += "|" + f.Tag
+		} else if f.Class != ObsPanic && f.Stream == "builtins" {
+			k += "|" + strings.TrimSuffix(f.Tag, ":apply")
 		}
 		if g, ok := groups[k]; ok {
 			g.Count++
@@ -708,6 +859,9 @@ func parentMain(a lib.Args, cfg *config) {
 		keys = append(keys, k)
 	}
 	for _, an := range anomalies {
+		if an.Class == "POISONED" {
+			continue // represented by the culprit found by bisection
+		}
 		addFailure(failure{Class: an.Class, Entry: an.Entry, Site: an.Site, Msg: an.Msg, Stream: an.Stream, Idx: an.Idx,
 			Input: an.Input, Standalone: an.Standalone, Tag: streams[an.Stream].Tag(an.Idx), EnvStart: an.EnvStart})
 	}
@@ -718,7 +872,7 @@ func parentMain(a lib.Args, cfg *config) {
 	}
 	sort.Strings(keys)
 	var failures []*failure
-	maxShrink := 40
+	maxShrink := 24
 	{
 		var fwg sync.WaitGroup
 		fsem := make(chan bool, 6)
@@ -730,32 +884,47 @@ func parentMain(a lib.Args, cfg *config) {
 			fsem <- true
 			go func(n int, f *failure) {
 				defer func() { <-fsem; fwg.Done() }()
-				to := inputTimeout
-				if f.Stream == "specials" {
-					to = 60 * time.Second
-				}
-				if n < maxShrink && f.Stream != "specials" {
-					shrink(cfg, f, to, 60)
-				}
-				// observable of the minimal input per entry point, each in its own child
 				f.Entries = map[string]string{}
-				ents := entriesFor(f.Stream)
-				for _, e := range ents {
+				if f.Stream == "specials" {
+					// already ran alone in its own child; cmd/zygo (default 1 GB Go stack) only in the thorough tier
+					f.Standalone = true
+					if cfg.tier == "thorough" {
+						f.Zygo = runZygo(cfg, f.Minimal, 120*time.Second)
+					}
+					return
+				}
+				if cfg.noShrink || n >= maxShrink {
+					return
+				}
+				to := inputTimeout
+				if f.Class == ObsPanic {
+					shrink(cfg, f, to, 60)
+					for _, e := range entriesFor(f.Stream) {
+						r := probe(cfg, []string{f.Minimal}, e, to, f.Stream, true)
+						f.Entries[entryNames[e]] = r[0].Class
+						if r[0].Class == f.Class && r[0].Site == f.Site {
+							f.Standalone = true
+						}
+					}
+				} else {
+					to = 4 * time.Second
+					shrink(cfg, f, to, 6)
+					e := entryIndex(f.Entry)
+					if e < 0 {
+						e = EEval
+					}
 					r := probe(cfg, []string{f.Minimal}, e, to, f.Stream, true)
 					f.Entries[entryNames[e]] = r[0].Class
-					if r[0].Class == f.Class && (f.Class != ObsPanic || r[0].Site == f.Site) {
+					if r[0].Class == f.Class {
 						f.Standalone = true
 					}
 				}
-				zt := 20 * time.Second
-				if f.Stream == "specials" {
-					zt = 90 * time.Second
-				}
-				f.Zygo = runZygo(cfg, f.Minimal, zt)
+				f.Zygo = runZygo(cfg, f.Minimal, 8*time.Second)
 			}(n, f)
 		}
 		fwg.Wait()
 	}
+	fmt.Fprintf(os.Stderr, "c01: failure groups processed %.1fs\n", time.Since(t0).Seconds())
 	// cmd/zygo on a sample of ordinary inputs (exit status only)
 	zygoSample := map[string]int{}
 	if cfg.zygo != "" && a.Replay == "" {
@@ -767,7 +936,7 @@ func parentMain(a lib.Args, cfg *config) {
 			}
 		}
 		sort.Strings(names)
-		ns := 60
+		ns := 40
 		if cfg.tier == "thorough" {
 			ns = 600
 		}
@@ -855,6 +1024,7 @@ func main() {
 		cfg.repo = r
 	}
 	worker := false
+	dump := false
 	var wStream, wProg, wRes string
 	wFrom, wTo, wOnly := 0, 0, -1
 	wTimeout := 10 * time.Second
@@ -869,6 +1039,8 @@ func main() {
 		switch a.Rest[i] {
 		case "--worker":
 			worker = true
+		case "--dump":
+			dump = true
 		case "--stream":
 			wStream = next()
 		case "--streams":
@@ -887,6 +1059,10 @@ func main() {
 			wRes = next()
 		case "--repo":
 			cfg.repo = next()
+		case "--poison-check":
+			poisonCheck = true
+		case "--no-shrink":
+			cfg.noShrink = true
 		case "--zygo":
 			cfg.zygo = next()
 		case "--input-timeout":
@@ -895,6 +1071,17 @@ func main() {
 				wTimeout = time.Duration(ms) * time.Millisecond
 			}
 		}
+	}
+	if dump {
+		st, _, err := buildStream(wStream, cfg)
+		if err != nil {
+			fmt.Fprintln(os.Stderr, err)
+			os.Exit(9)
+		}
+		for i := wFrom; i < wTo && i < st.Count(); i++ {
+			fmt.Printf("%d\t%s\t%s\n", i, st.Tag(i), strconv.Quote(st.Input(i)))
+		}
+		return
 	}
 	if worker {
 		budgetName := wStream
